@@ -1,6 +1,8 @@
 #![allow(dead_code, unused_variables, unused_imports, unused_mut, unused_macros, clippy::all)]
 mod ap;
 mod gen;
+mod icfg;
+mod work;
 mod refm;
 mod reg;
 mod rep;
